@@ -307,7 +307,9 @@ pub fn process_limits(cfg: &RunCfg, item: &Item, rep: &mut PatReport) {
             }
         }
     }
-    symx_api::set_step_cap(30_000_000);
+    // 1M stack pushes end in StackOverflow after about 3M steps; a search over <= 5 bytes that
+    // needs more than 4M steps is reported as non-terminating
+    symx_api::set_step_cap(4_000_000);
     let classes = union_classes(&b.classes, &rp.classes);
     let body = LimitBody { b: &b, rp: &rp, step_factor: f };
     drive(&cfg.prop, &body, &classes, cfg.n, cfg, rep);
@@ -1078,7 +1080,7 @@ fn respell_items(p: &str, gen: &str, only: Option<&str>, out: &mut Vec<Item>) {
 const ATOMS_SMALL: [&str; 4] = ["a", "b", ".", "[ab]"];
 const ATOMS_CASE: [&str; 6] = ["a", "A", "b", "[ab]", "(?-i:a)", "."];
 const OPS_QUICK: [&str; 11] = ["cap", "?", "*", "+", "*?", "{2}", "{1,2}", "atomic", "(?=", "(?!", "(?<="];
-const OPS_COMMON: [&str; 9] = ["cap", "?", "*", "+", "??", "*?", "+?", "{2}", "{1,2}"];
+const OPS_COMMON: [&str; 15] = ["cap", "?", "*", "+", "??", "*?", "+?", "{2}", "{1,2}", "{1}", "{1}?", "{0,1}?", "{1,}?", "{0,2}", "{2,}?"];
 const ATOMS_COMMON: [&str; 10] = ["a", "b", ".", "[ab]", "\\w", "\\b", "\\B", "^", "$", "\\d"];
 
 pub fn escape_strings(max_chars: usize) -> Vec<String> {
@@ -1143,6 +1145,9 @@ pub fn work_list(cfg: &RunCfg) -> Option<WorkList> {
             for w in corpus::WITNESSES.iter() {
                 respell_items(w, "witness", None, &mut fixed);
             }
+            for w in ["(?i:é)b", "(?i)éa", "(?i:aé)", "(?i:\\x{212a})a", "(?i:(é)\\1)", "(?i:[é]b)", "é(?i:É)"].iter() {
+                respell_items(w, "witness", None, &mut fixed);
+            }
             for w in ["a*+b", "(?>a*)b", "(a)(b)\\2\\1", "\\Aab\\z", "^ab$", "a b#c", "(?i:a)b", "(?i:ab)c", "é+", "(a)\\1+", "(?<=a)b", "a++", "(a|b)?+c"].iter() {
                 respell_items(w, "plain", None, &mut fixed);
             }
@@ -1173,6 +1178,9 @@ pub fn work_list(cfg: &RunCfg) -> Option<WorkList> {
         }
         "C07" | "C20" => {
             for w in corpus::WITNESSES.iter() {
+                fixed.push(Item::new(w, "witness"));
+            }
+            for w in ["(?:a*(?!c)){2,}?b", "((?=a)|a){2,}", "(a*)b(?:\\1){2,}", "(?:(?>a*)){2,}(?=b)", "(?:a?(?=b|$)){3,}", "(?:\\b|a){2,}b"].iter() {
                 fixed.push(Item::new(w, "witness"));
             }
             for w in ["(?:a|b)*+c", "(?>(?>a*)b*)c", "(?!(?!a))a", "(?:(?>a|ab)c|.)*", "(?(?=a)(?>a|b)|c)d", "(a|b)*?\\1", "(?:a?){3}b", "(?:(?:a?){2}){2}", "(?>a{1,2}){2}b",
